@@ -728,6 +728,11 @@ class Model(Object):
 
         context = get_context(self)
 
+        def switch_metabolite(reaction, present, replacement):
+            # Hand the stoichiometry entry of `present` over to `replacement`.
+            if present in reaction._metabolites:
+                reaction._metabolites[replacement] = reaction._metabolites.pop(present)
+
         # Add reactions. Also take care of genes and metabolites in the loop.
         for reaction in pruned:
             reaction._model = self
@@ -754,6 +759,16 @@ class Model(Object):
                     model_metabolite._reaction.add(reaction)
                     if context:
                         context(partial(model_metabolite._reaction.remove, reaction))
+                        if model_metabolite is not metabolite:
+                            # The reaction gets its own metabolite object back.
+                            context(
+                                partial(
+                                    switch_metabolite,
+                                    reaction,
+                                    model_metabolite,
+                                    metabolite,
+                                )
+                            )
             reaction.update_genes_from_gpr()
 
         self.reactions += pruned
